@@ -33,6 +33,11 @@ theorem monitoring_frame :
 theorem refine_gets_no_monitor_option :
     ∀ k ∈ refineKwargs, k ∈ ["executor", "num_refine", "targets", "update_bounds"] := by decide
 
+/-- **The monitoring callees draw nothing from a random stream**: no reference to `np.random` / `random` / a generator inside
+    `test_set_performance`, the test-set helpers, `save_to_file`, the title printer and `predict` (GENERATED from their bodies on
+    every run) — the global NumPy stream is consumed by `refine`'s input sampling only -/
+theorem monitors_draw_nothing : monitorRandomUses = [] := by decide
+
 /-- for all monitor configurations the learning trace is the same -/
 theorem monitors_do_not_influence_learning (m₁ m₂ : Monitor) (maxIter : Nat) (tol : Q) (timeUp : Nat → Bool) (level : Nat)
     (steps : List StepResult) : fitWith m₁ maxIter tol timeUp level steps = fitWith m₂ maxIter tol timeUp level steps := rfl
